@@ -22,6 +22,11 @@ func (s StringSubscript) StartIndex() Expression {
 	return s.startIndex
 }
 
+// SingleIndex returns true if the subscript addresses one character (s[i]), i.e. end- and start-index are the same expression.
+func (s StringSubscript) SingleIndex() bool {
+	return s.endIndex == nil
+}
+
 func (s StringSubscript) EndIndex() Expression {
 	endIndex := s.endIndex
 
